@@ -5,7 +5,8 @@ F = "C18_files.py"
 
 def spec(tier):
     q = tier == "quick"
-    obs = [Script("RX", ["checks/C18_rx.py"], 300, what="L_search(create_src_file_exts_str(S)) == {names ending in a documented default suffix (any case) or a member of S} over ALL printable-ASCII file names (both inclusions, unbounded length) for 6 configurations S incl. regex metacharacters and look-alike suffixes")]
+    obs = [Script("PATHS", ["checks/C18_globs.py"], 300, what="on a real temporary tree with hidden directories / files: resolve_globs == an independent fnmatch-per-component expansion for 25 patterns (incl. '.', '', '..', '**', dot names); the start-up sequence (_load_config_file, _resolve_globs_in_paths, _add_source_dirs, _get_source_files) gives the reference file set for 10 (source_dirs, excl_paths) settings through the command line and through the configuration file"),
+           Script("RX", ["checks/C18_rx.py"], 300, what="L_search(create_src_file_exts_str(S)) == {names ending in a documented default suffix (any case) or a member of S} over ALL printable-ASCII file names (both inclusions, unbounded length) for 6 configurations S incl. regex metacharacters and look-alike suffixes; the same for the pattern the SERVER builds from --incl_suffixes and from the configuration file")]
     obs += parts("F.files", F, "files", 16, 280 if q else 2500, path_timeout=200,
                  what="_get_source_files/_add_source_dirs on a symbolic in-memory tree (3 nested directories x 9 content masks over 12 entry names with look-alike, mixed-case and prefix-sharing names) x source_dirs subsets x 32 exclusion-path subsets x 3 incl_suffixes x 4 excl_suffixes: result set == prescribed set")
     return dict(
